@@ -4,8 +4,9 @@ CONSTANTS
   DEV_PartialIntersection = FALSE
   DEV_PartialNetwork = FALSE
   DEV_AddNetOnNonEmpty = FALSE
+  DEV_HangingFreesNamedIds = FALSE
   MaxGen = 2
-  Universe = {"LA","LB","LC","LD","SA","SB","TA","XA","XB","OS","OD","OP","OE","NA","NB","NC"}
+  Universe = {"LA","LB","LC","LD","SA","SB","TA","XA","XB","OS","OD","OP","OE","OQ","NA","NB","NC"}
 VIEW View
 INVARIANT InvUnique
 INVARIANT InvPoolExact
